@@ -1187,6 +1187,60 @@ def disabled_incr_probe():
     return None
 
 
+def negative_cache_probe():
+    """negative caching: a decorator whose `condition` returns the exception instance stores the failure (RaiseException) under
+    the key - a write made by a decorator declaring tags=[t], so delete_tags(t) must remove it (round 7, C12-19: that branch of
+    the simple @cache wrote without the tags).  For @cache / @early / @hit: a raising call, a second call (must be served from
+    the stored failure), delete_tags, then no key of the function may be left and the next call must run the body again.
+    Real code only; returns None or a description of the first decorator that keeps the failure readable."""
+    from cashews import Cache
+
+    async def go():
+        out = []
+        for kind in ("cache", "early", "hit"):
+            cache = Cache()
+            cache.setup("mem://?size=1000&check_interval=0")
+            await cache.init()
+            kw = {"ttl": 100, "key": "nk:{x}", "tags": ["nt"],
+                  "condition": lambda result, args, kwargs, key=None: result if isinstance(result, Exception) else True}
+            if kind == "early":
+                kw["early_ttl"] = 50
+            if kind == "hit":
+                kw["cache_hits"] = 5
+            ran = []
+
+            @getattr(cache, kind)(**kw)
+            async def fn(x):
+                ran.append(x)
+                raise ValueError(x)
+
+            for _ in range(3):
+                try:
+                    await fn(1)
+                except ValueError:
+                    pass
+            stored = len(ran) == 1
+            await cache.delete_tags("nt")
+            left = sorted([k async for k in cache.scan("*nk:1*")])
+            try:
+                await fn(1)
+            except ValueError:
+                pass
+            out.append({"decorator": kind, "failure_was_stored": stored, "keys_left_after_delete_tags": left, "body_ran_again": len(ran) == 2})
+            await cache.close()
+        return out
+
+    res = vtime.run(go)
+    for r in res:
+        if not r["failure_was_stored"]:
+            raise HarnessError(f"negative caching probe: @{r['decorator']} did not store the failure ({r})")
+        if r["keys_left_after_delete_tags"] or not r["body_ran_again"]:
+            return {"ops": [f"@{r['decorator']}(ttl=100, key='nk:{{x}}', tags=['nt'], condition=<returns the exception>) on a body that raises",
+                            "fn(1) x3 (one execution, the failure is stored)", "delete_tags nt", "scan *nk:1*", "fn(1)"],
+                    "observed": r, "expected": "no key left, the body runs again"}
+    return None
+
+
 def batch_literal() -> int:
     """the `count=` literal of `_delete_tag`, read from the source the check runs against"""
     import ast
